@@ -56,7 +56,13 @@ int utf16toLocal8(const wchar_t* p, char* u, int n)
 	BOOL used = false;
 	return WideCharToMultiByte(CP_ACP, 0, p, -1, u, n + 1, &def, &used) - 1;
 #else
-	return (int)wcstombs(u, p, n + 1);
+	size_t m = wcstombs(u, p, n + 1);
+	if (m == (size_t)-1) // a character without local representation: no result (rather than an unterminated one and -1)
+		m = 0;
+	else if (m > (size_t)n) // the buffer was filled completely: keep room for the terminator
+		m = n;
+	u[m] = '\0';
+	return (int)m;
 #endif
 }
 
@@ -65,7 +71,13 @@ int local8toUtf16(const char* u, wchar_t* p, int n)
 #ifdef _WIN32
 	return MultiByteToWideChar(CP_ACP, 0, u, -1, p, n + 1) - 1;
 #else
-	return (int)mbstowcs(p, u, n + 1);
+	size_t m = mbstowcs(p, u, n + 1);
+	if (m == (size_t)-1) // invalid multibyte sequence: no result (rather than an unterminated one and -1)
+		m = 0;
+	else if (m > (size_t)n)
+		m = n;
+	p[m] = L'\0';
+	return (int)m;
 #endif
 }
 
@@ -235,8 +247,8 @@ String utf8ToLocal(const String& a)
 {
 	String s(a.length() * 2, 0);
 	Array<wchar_t> ws(a.length() + 1);
-	int n = utf8toUtf16(*a, ws.data(), a.length());
-	utf16toLocal8(ws.data(), s.data(), n);
+	utf8toUtf16(*a, ws.data(), a.length());
+	utf16toLocal8(ws.data(), s.data(), a.length() * 2); // the limit is the size of s in bytes, not the number of UTF-16 units
 	return s.fix();
 }
 
@@ -521,7 +533,7 @@ String String::toLocal() const
 	return *this;
 #else
 	Array<char> s(length() * 2 + 1);
-	utf16toLocal8(dataw(), s.data(), s.length());
+	utf16toLocal8(dataw(), s.data(), s.length() - 1);
 	return String(s.data());
 #endif
 }
